@@ -7,6 +7,8 @@ LEAN_MODULE = "Urandom.Props.C20"
 RULE = ("the impl table (every `impl SecureRng for`, the bound of ChaCha::from_rng, the return types of new/seeded/csprng) is re-extracted from the source on every run and the "
         "finite theorems are re-decided on it; probes: small client programs compiled (rustc --emit=metadata) against the freshly built crate - assert_secure::<G>() and "
         "ChaCha12::from_rng(&mut Random<G>) for every public generator incl. a user-defined Rng (blanket-impl detector), csprng/new/seeded passed to a function requiring the marker; "
+        "compositions of public types (Read<Random<G>>, Read<&mut Random<G>>, &mut G, Box<G>, Random<G>, Read over std readers) must be rejected; every impl header in the current source whose target is "
+        "not a ChaCha/System generator is instantiated (lifetimes, consts, candidate types) into client programs that must be rejected; "
         "accept/reject must equal what the property states. non-trivial = every probe; distinct = distinct probe source")
 TRUSTED = ["rustc's trait checking (the guarantee itself is enforced by the compiler)", "tools/extract.py (regex translation of impl headers; cross-checked by the probes)"]
 ASSUMPTIONS = ["the probes cover the generators exported from urandom::rng at the pinned commit plus one user-defined Rng; a newly added generator type would need a new probe"]
@@ -48,6 +50,77 @@ def probes():
     return ps
 
 
+ALLOWED_TARGET = __import__("re").compile(r"^(ChaCha<\s*(8|12|20|\w+)\s*>|ChaCha(8|12|20)|System<\s*\w+\s*>)$")
+PRELUDE2 = PRELUDE + "use urandom::*;\nuse urandom::rng::*;\n"
+TYPE_CANDIDATES = ["urandom::rng::Xoshiro256", "UserRng", "urandom::rng::SplitMix64", "urandom::rng::Wyrand", "urandom::rng::Mock<std::iter::Repeat<u64>>",
+                   "&'static [u8]", "std::io::Empty", "urandom::rng::ChaCha12", "dyn urandom::Rng"]
+# compositions of public types that must never carry the marker (found independently of the source translator, e.g. macro-generated impls)
+WRAPPED = ["urandom::rng::Read<urandom::Random<{B}>>", "urandom::rng::Read<&'static mut urandom::Random<{B}>>", "&'static mut {B}", "Box<{B}>", "urandom::Random<{B}>"]
+WRAP_BASES = ["urandom::rng::Xoshiro256", "urandom::rng::SplitMix64", "urandom::rng::Wyrand", "UserRng"]
+FIXED_REJECT = ["urandom::rng::Read<std::io::Empty>", "urandom::rng::Read<std::io::Cursor<Vec<u8>>>", "urandom::rng::Read<std::fs::File>",
+                "urandom::rng::Read<urandom::Random<urandom::rng::ChaCha12>>", "urandom::rng::Mock<std::vec::IntoIter<u64>>"]
+
+
+def split_top(s):
+    out, depth, cur = [], 0, ""
+    for ch in s:
+        if ch in "<([":
+            depth += 1
+        elif ch in ">)]":
+            depth -= 1
+        if ch == "," and depth == 0:
+            out.append(cur.strip()); cur = ""
+        else:
+            cur += ch
+    if cur.strip():
+        out.append(cur.strip())
+    return out
+
+
+def instantiate(gen, target):
+    """concrete instances of an impl header's target: lifetimes -> 'static, const parameters -> small values, type parameters -> every candidate type"""
+    import itertools, re
+    params = split_top(gen.strip()[1:-1]) if gen.strip().startswith("<") else []
+    choices = []
+    for prm in params:
+        name = prm.split(":")[0].split("=")[0].strip()
+        if name.startswith("'"):
+            choices.append([(name, "'static")])
+        elif name.startswith("const "):
+            choices.append([(name.split()[1], v) for v in ("1", "8")])
+        else:
+            choices.append([(name, c) for c in TYPE_CANDIDATES])
+    out = []
+    for combo in itertools.islice(itertools.product(*choices), 200):
+        t = target
+        for name, val in combo:
+            t = re.sub(r"(?<![\w'])%s(?!\w)" % re.escape(name), val, t)
+        out.append(t)
+    return out or [target]
+
+
+def synthesized_probes():
+    """client programs derived from the impl table of the CURRENT source: every `impl SecureRng for T` whose target is not a ChaCha / System
+    generator is instantiated; a program that compiles with it is a client the property says must be rejected"""
+    import sys
+    sys.path.insert(0, os.path.join(C.VERIF, "tools"))
+    import extract
+    ps = []
+    for rel, gen, target, where in extract.secure_impls():
+        if ALLOWED_TARGET.match(target):
+            continue
+        for k, t in enumerate(instantiate(gen, target)):
+            ps.append(("unexpected-impl:%s:%s#%d" % (rel, target, k), PRELUDE2 + "pub fn probe() { assert_secure::<%s>(); }\n" % t, False))
+            ps.append(("unexpected-impl-seeds-chacha:%s:%s#%d" % (rel, target, k), PRELUDE2 + "pub fn probe(r: &mut urandom::Random<%s>) { let _ = urandom::rng::ChaCha12::from_rng(r); }\n" % t, False))
+    for w in WRAPPED:
+        for b in WRAP_BASES:
+            t = w.replace("{B}", b)
+            ps.append(("composed:" + t, PRELUDE + "pub fn probe() { assert_secure::<%s>(); }\n" % t, False))
+    for t in FIXED_REJECT:
+        ps.append(("composed:" + t, PRELUDE + "pub fn probe() { assert_secure::<%s>(); }\n" % t, False))
+    return ps
+
+
 def regenerate():
     import sys
     sys.path.insert(0, os.path.join(C.VERIF, "tools"))
@@ -71,11 +144,11 @@ def extra(binary, build, tier, rng):
         return
     rlib = rlibs[-1]
     tmp = tempfile.mkdtemp(prefix="c20probes-", dir=os.path.join(C.HARNESS_DIR, os.path.basename(os.path.dirname(os.path.dirname(binary)))))
-    ps = probes()
+    ps = probes() + synthesized_probes()
 
     def run(p):
         name, src, want = p
-        path = os.path.join(tmp, name.replace(":", "_").replace("<", "_").replace(">", "_").replace(" ", "_") + ".rs")
+        path = os.path.join(tmp, "p%d_" % abs(hash(name)) + "".join(ch if ch.isalnum() else "_" for ch in name)[:60] + ".rs")
         open(path, "w").write(src)
         cmd = ["rustc", "--edition", "2021", "--crate-type", "lib", "--emit=metadata", "-L", "dependency=" + deps, "--extern", "urandom=" + rlib,
                "--cfg", C.GUARD, "-o", path + ".rmeta", path]
@@ -90,14 +163,17 @@ def extra(binary, build, tier, rng):
         yield {"kind": "oracle", "build": build, "request": "probe sanity-compiles", "impl": sane[4][-400:], "model": "", "oracle": "probe infrastructure broken: a trivially valid client does not compile"}
         return
     for name, src, want, got, err in results:
+        if not want and not got and "E0277" not in err and not name.startswith("unexpected-impl"):
+            # a probe that is rejected for another reason than the missing marker proves nothing
+            yield {"kind": "note", "text": "probe %s is rejected for a reason other than the marker bound (vacuous): %s" % (name, err.strip().split("\n")[0][:160])}
         if want != got:
             what = "compiles but must be rejected (a generator without the marker is accepted as secure)" if got else "is rejected but must compile"
             if not got and "E0277" not in err:
                 what += " (unexpected error: %s)" % err.strip().split("\n")[0][:160]
-            yield {"kind": "oracle", "build": build, "request": "probe " + name, "impl": src[len(PRELUDE):].strip(), "model": "accept" if want else "reject (E0277)",
+            yield {"kind": "oracle", "build": build, "request": "probe " + name, "impl": src[src.index("pub fn probe"):].strip(), "model": "accept" if want else "reject (E0277)",
                    "oracle": "client program `%s` %s" % (name, what)}
     yield {"kind": "count", "what": "rustc-probes", "n": len(results), "distinct": len({r[1] for r in results}),
-           "samples": [{"probe": r[0], "source": r[1][len(PRELUDE):].strip(), "expected": "accept" if r[2] else "reject", "compiled": r[3]} for r in results[:3]]}
+           "samples": [{"probe": r[0], "source": r[1][r[1].index("pub fn probe"):].strip(), "expected": "accept" if r[2] else "reject", "compiled": r[3]} for r in results[:3]]}
 
 
 def classify(req, model):
